@@ -5,23 +5,47 @@
 //	T<k> ev ev ...     ev = w.<file>.<v> | d.<file> | c | f.<Task> | r.<Tasks>.<force>.<crash>
 //	crash = - | K<j> (the scripted Runner panics in its j-th call: kill -9 during a command)
 //	          | P<k> (panic at the k-th cache.VerifPoint) | P<k>t<n> (… after writing only the first n bytes: torn write)
+//	T<k>b ev ev ...    the same history in BINARY MODE (see below); the oracle ignores the first word of a case, so
+//	                   both kinds are judged and compared in exactly the same way
 //
 // Work builds a temp project and, for every r event, a FRESH SpokFile (glob expansions are cached in the struct),
 // runs the real SpokFile.Run with a scripted shell.Runner, and reports per invocation: the inputs of every task
 // (computed here from the tree by reference code, digests by hash.New()), the run order, where it was killed, and
 // the observables RES / EXEC / ERR / CACHE (see lean/Spok/Oracle/Run.lean for the line format).
+//
+// Binary mode: every r event is one process `$VERIF_BUILD/spok --debug --json [--force] <tasks>` (built with -tags
+// verif) with cwd = the project directory <sandbox>/p, HOME = <sandbox>, PATH = <sandbox>/bin (holds `kill` only),
+// NO_COLOR=1.  The spokfile is written once and never changes; every task has ONE command
+//
+//	c=0; while read -r l; do c=$((c+1)); done < $LOG; if test $((c+1)) = "$KILLAT"; then echo T > $CTL/killed; kill -9 $$; fi; echo T >> $LOG; test ! -e $CTL/fail.T
+//
+// so that  K<j>  = the j-th command started in this invocation really SIGKILLs the spok process (KILLAT=j; `$$` is
+// the pid of spok under mvdan/sh), P<k> / P<k>t<n> = SPOK_VERIF_CRASH=k / SPOK_VERIF_TEAR=n (the binary SIGKILLs itself
+// at its k-th crash point), f.<Task> toggles the flag file $CTL/fail.<Task> (outside the project, in no dependency set).
+// Observables: EXEC = the side-effect log $LOG (truncated before every invocation), RES and the order = the JSON document
+// on stdout (a killed run prints nothing; for those the order is the last `[..]` list on the --debug stderr that is a
+// permutation of the closure), ERR = none (exit 0 with a document, or exit 1 without one while the log shows a failing
+// command and stderr says "exited with status": spok prints no document then, and RES is then *inferred*: executed =
+// in the log, everything else of the closure skipped) | cache (exit 1 and "Could not load spok cache" on stderr) | crash (SIGKILL, as asked) | panic (any
+// other signal / a Go panic) | other | bad (the document contradicts the log), CACHE = .spok/cache.json read back.
 package main
 
 import (
 	"bufio"
+	"bytes"
+	"context"
 	"encoding/json"
+	"errors"
 	"fmt"
 	"math/rand"
 	"os"
+	"os/exec"
 	"path/filepath"
+	"regexp"
 	"sort"
 	"strconv"
 	"strings"
+	"syscall"
 	"time"
 
 	"github.com/FollowTheProcess/spok/cache"
@@ -35,7 +59,28 @@ import (
 )
 
 func main() {
+	if filepath.Base(os.Args[0]) == "kill" {
+		killApplet() // binary mode on a machine without kill(1): <sandbox>/bin/kill is a link to this program
+	}
 	sup.Main("run", &sup.Engine{Gen: gen, Work: work, Recycle: 4000, Timeout: 30 * time.Second})
+}
+
+// killApplet is `kill -9 <pid>`
+func killApplet() {
+	sig, pid := syscall.SIGTERM, 0
+	for _, a := range os.Args[1:] {
+		if strings.HasPrefix(a, "-") {
+			if n, err := strconv.Atoi(a[1:]); err == nil {
+				sig = syscall.Signal(n)
+			}
+			continue
+		}
+		pid, _ = strconv.Atoi(a)
+	}
+	if pid <= 1 || syscall.Kill(pid, sig) != nil {
+		os.Exit(1)
+	}
+	os.Exit(0)
 }
 
 // ------------------------------------------------------------------------------------------------
@@ -84,6 +129,23 @@ func (t template) text() string {
 		}
 		args = append(args, td.tasks...)
 		fmt.Fprintf(&b, "task %s(%s) {\n    run %s\n}\n\n", td.name, strings.Join(args, ", "), td.name)
+	}
+	return b.String()
+}
+
+// binText is the spokfile of binary mode: the same tasks, the one command being the real thing (see the file comment)
+func (t template) binText() string {
+	var b strings.Builder
+	for _, td := range t.tasks {
+		var args []string
+		for _, d := range td.deps {
+			args = append(args, strconv.Quote(d))
+		}
+		args = append(args, td.tasks...)
+		n := td.name
+		cmd := `c=0; while read -r l; do c=$((c+1)); done < $LOG; if test $((c+1)) = "$KILLAT"; then echo ` + n +
+			` > $CTL/killed; kill -9 $$; fi; echo ` + n + ` >> $LOG; test ! -e $CTL/fail.` + n
+		fmt.Fprintf(&b, "task %s(%s) {\n    %s\n}\n\n", n, strings.Join(args, ", "), cmd)
 	}
 	return b.String()
 }
@@ -144,7 +206,11 @@ func content(root string, f int) int {
 	return 2
 }
 
-func refInputs(root string, td taskDef) inputs {
+// spokfileItem is the file index of the spokfile itself: in binary mode it is in the project directory and the glob
+// "*" matches it (its content never changes: content id 1)
+const spokfileItem = 5
+
+func refInputs(root string, td taskDef, spokfileOnDisk bool) inputs {
 	in := inputs{readable: true}
 	add := func(f int) {
 		c := content(root, f)
@@ -165,6 +231,10 @@ func refInputs(root string, td taskDef) inputs {
 		case "*":
 			add(0)
 			add(1)
+			if spokfileOnDisk {
+				in.items = append(in.items, [2]int{spokfileItem, 1})
+				in.paths = append(in.paths, filepath.Join(root, "spokfile"))
+			}
 			if st, err := os.Stat(filepath.Join(root, "src")); err == nil && st.IsDir() {
 				in.dirs++
 				in.paths = append(in.paths, filepath.Join(root, "src"))
@@ -306,12 +376,353 @@ func tmpBase() string {
 	return ""
 }
 
+type resEntry struct {
+	task    string
+	skipped bool
+}
+
+// invocation is what one r event was observed to do, in-process or as a process
+type invocation struct {
+	crash    string     // CR: "-" or where it was killed
+	errClass string     // "crash" | "panic" | "cache" | "other"; "" = it returned results
+	bad      bool       // the report contradicts the ground truth in a way the result list cannot show
+	results  []resEntry // errClass == "": the reported results, in order
+	calls    []call     // the commands that ran to their end, in order (ground truth)
+	killed   string     // the task whose command was running when the process was killed
+	order    []string   // the run order when it was observed apart from the results (nil = not observed)
+	fatal    string     // the whole case cannot be run (no binary, hang, …)
+}
+
+type crashSpec struct {
+	killAt  int // K<j>
+	pointAt int // P<k>
+	tear    int // t<n>, -1 = none
+}
+
+func parseCrashSpec(s string) (crashSpec, bool) {
+	cs := crashSpec{tear: -1}
+	switch {
+	case s == "-":
+	case strings.HasPrefix(s, "K"):
+		cs.killAt, _ = strconv.Atoi(s[1:])
+	case strings.HasPrefix(s, "P"):
+		q := strings.Split(s[1:], "t")
+		cs.pointAt, _ = strconv.Atoi(q[0])
+		if len(q) > 1 {
+			cs.tear, _ = strconv.Atoi(q[1])
+		}
+	default:
+		return cs, false
+	}
+	return cs, true
+}
+
+// invokeInProc: a fresh SpokFile, the real SpokFile.Run with a scripted Runner; kills are panics
+func invokeInProc(text, proj string, sel, req []string, force bool, cs crashSpec, fail map[string]bool) invocation {
+	inv := invocation{crash: "-"}
+	tree, err := parser.New(text).Parse()
+	if err != nil {
+		inv.fatal = "BAD-TEMPLATE " + sup.Hx(err.Error())
+		return inv
+	}
+	lg := &rlog{}
+	sf, err := file.New(tree, proj, lg)
+	if err != nil {
+		inv.fatal = "BAD-TEMPLATE " + sup.Hx(err.Error())
+		return inv
+	}
+	rn := &runner{fail: fail, killAt: cs.killAt}
+	npoints := 0
+	cache.VerifPoint = func(point, path string, contents []byte) {
+		npoints++
+		if npoints != cs.pointAt {
+			return
+		}
+		j := (npoints + 1) / 2
+		if point == "dump:before" {
+			if cs.tear >= 0 {
+				n := cs.tear
+				if n > len(contents) {
+					n = len(contents)
+				}
+				_ = os.WriteFile(path, contents[:n], 0o666)
+				if n < len(contents) {
+					panic(killed{fmt.Sprintf("T%d", j)})
+				}
+				panic(killed{fmt.Sprintf("A%d", j)})
+			}
+			panic(killed{fmt.Sprintf("B%d", j)})
+		}
+		panic(killed{fmt.Sprintf("A%d", j)})
+	}
+	var runErr error
+	func() {
+		defer func() {
+			cache.VerifPoint = nil
+			if r := recover(); r != nil {
+				if k, ok := r.(killed); ok {
+					inv.crash = k.what
+					inv.errClass = "crash"
+				} else {
+					inv.errClass = "panic"
+				}
+			}
+		}()
+		rs, err := sf.Run(iostream.Null(), rn, force, req...)
+		runErr = err
+		if err == nil {
+			for _, x := range rs {
+				inv.results = append(inv.results, resEntry{x.Task, x.Skipped})
+			}
+		}
+	}()
+	if inv.errClass == "" && runErr != nil {
+		if strings.Contains(runErr.Error(), "Could not load spok cache file") {
+			inv.errClass = "cache"
+		} else {
+			inv.errClass = "other"
+		}
+	}
+	inv.calls = rn.calls
+	inv.killed = rn.killed
+	inv.order = lg.order(sel)
+	return inv
+}
+
+// ---- binary mode
+
+type sandbox struct {
+	root, proj, ctl, log, bin string
+	spok                      string
+}
+
+var bracketList = regexp.MustCompile(`\[([A-Z](?: [A-Z])*)\]`)
+
+func newSandbox(root string, tpl template) (*sandbox, string) {
+	sb := &sandbox{root: root, proj: filepath.Join(root, "p"), ctl: filepath.Join(root, "ctl"),
+		log: filepath.Join(root, "log"), bin: filepath.Join(root, "bin")}
+	sb.spok = filepath.Join(os.Getenv("VERIF_BUILD"), "spok")
+	if os.Getenv("VERIF_BUILD") == "" {
+		sb.spok = "/verif/.build/spok"
+	}
+	if _, err := os.Stat(sb.spok); err != nil {
+		return nil, "NO-BINARY"
+	}
+	for _, d := range []string{sb.proj, sb.ctl, sb.bin} {
+		if os.MkdirAll(d, 0o755) != nil {
+			return nil, "BAD-TMP"
+		}
+	}
+	// the minimal PATH: kill(1) only (the system's, else this program under that name)
+	target := ""
+	for _, k := range []string{"/usr/bin/kill", "/bin/kill"} {
+		if st, err := os.Stat(k); err == nil && st.Mode()&0o111 != 0 {
+			target = k
+			break
+		}
+	}
+	if target == "" {
+		if self, err := os.Executable(); err == nil {
+			target = self
+		}
+	}
+	if target == "" || os.Symlink(target, filepath.Join(sb.bin, "kill")) != nil {
+		return nil, "NO-KILL"
+	}
+	if os.WriteFile(filepath.Join(sb.proj, "spokfile"), []byte(tpl.binText()), 0o644) != nil {
+		return nil, "BAD-TMP"
+	}
+	return sb, ""
+}
+
+type jsonResult struct {
+	Task    string `json:"task"`
+	Results []struct {
+		Status int `json:"status"`
+	} `json:"results"`
+	Skipped bool `json:"skipped"`
+}
+
+// invokeBinary: one process of the real binary; kills are SIGKILLs
+func invokeBinary(sb *sandbox, sel, req []string, force bool, cs crashSpec, fail map[string]bool) invocation {
+	inv := invocation{crash: "-"}
+	_ = os.WriteFile(sb.log, nil, 0o644)
+	_ = os.Remove(filepath.Join(sb.ctl, "killed"))
+	argv := []string{"--debug", "--json"}
+	if force {
+		argv = append(argv, "--force")
+	}
+	argv = append(argv, req...)
+	env := []string{"HOME=" + sb.root, "PATH=" + sb.bin, "NO_COLOR=1", "TERM=dumb", "LOG=" + sb.log, "CTL=" + sb.ctl,
+		"KILLAT=" + strconv.Itoa(cs.killAt)}
+	if cs.pointAt > 0 {
+		env = append(env, "SPOK_VERIF_CRASH="+strconv.Itoa(cs.pointAt))
+		if cs.tear >= 0 {
+			env = append(env, "SPOK_VERIF_TEAR="+strconv.Itoa(cs.tear))
+		}
+	}
+	if d := os.Getenv("GOCOVERDIR"); d != "" {
+		env = append(env, "GOCOVERDIR="+d) // a -cover build (thorough tier) of the binary
+	}
+	var so, se bytes.Buffer
+	var runErr error
+	timedOut := false
+	for attempt := 0; ; attempt++ {
+		so.Reset()
+		se.Reset()
+		ctx, cancel := context.WithTimeout(context.Background(), 15*time.Second)
+		cmd := exec.CommandContext(ctx, sb.spok, argv...)
+		cmd.Dir = sb.proj
+		cmd.Env = env
+		cmd.Stdout, cmd.Stderr = &so, &se
+		runErr = cmd.Run()
+		timedOut = ctx.Err() != nil
+		cancel()
+		// the shared binary may be being replaced by a concurrent build: it was not started, try again
+		var ee *exec.ExitError
+		if runErr != nil && !errors.As(runErr, &ee) && attempt < 20 {
+			time.Sleep(100 * time.Millisecond)
+			continue
+		}
+		break
+	}
+	if timedOut {
+		inv.fatal = "HANG"
+		return inv
+	}
+
+	// ground truth: the commands that ran to their end
+	logData, _ := os.ReadFile(sb.log)
+	called := map[string]bool{}
+	anyFailed := false
+	for _, l := range strings.Split(string(logData), "\n") {
+		if l == "" {
+			continue
+		}
+		inv.calls = append(inv.calls, call{l, !fail[l]})
+		called[l] = true
+		if fail[l] {
+			anyFailed = true
+		}
+	}
+	if k, err := os.ReadFile(filepath.Join(sb.ctl, "killed")); err == nil {
+		inv.killed = strings.TrimSpace(string(k))
+	}
+	// the run order as logged (wording-independent: the last bracketed list that is a permutation of the closure)
+	for _, m := range bracketList.FindAllStringSubmatch(se.String(), -1) {
+		names := strings.Split(m[1], " ")
+		c := append([]string{}, names...)
+		sort.Strings(c)
+		if strings.Join(c, ",") == strings.Join(sel, ",") {
+			inv.order = names
+		}
+	}
+
+	exit, sig := 0, syscall.Signal(0)
+	if runErr != nil {
+		var ee *exec.ExitError
+		if !errors.As(runErr, &ee) {
+			inv.fatal = "NO-BINARY"
+			return inv
+		}
+		exit = ee.ExitCode()
+		if ws, ok := ee.Sys().(syscall.WaitStatus); ok && ws.Signaled() {
+			sig = ws.Signal()
+		}
+	}
+	switch {
+	case sig == syscall.SIGKILL && cs.killAt > 0:
+		inv.errClass = "crash"
+		inv.crash = fmt.Sprintf("K%d", len(inv.calls)+1)
+		if len(inv.calls)+1 != cs.killAt || inv.killed == "" {
+			inv.errClass = "panic" // killed, but not by the command that was to do it
+		}
+	case sig == syscall.SIGKILL && cs.pointAt > 0:
+		inv.errClass = "crash"
+		j := (cs.pointAt + 1) / 2
+		switch {
+		case cs.pointAt%2 == 0:
+			inv.crash = fmt.Sprintf("A%d", j)
+		case cs.tear < 0:
+			inv.crash = fmt.Sprintf("B%d", j)
+		default:
+			// fewer bytes than the new contents ⇒ what is on disk is a strict prefix of a JSON object: not a document
+			data, err := os.ReadFile(filepath.Join(sb.proj, cache.Path))
+			var m map[string]string
+			if err == nil && json.Unmarshal(data, &m) == nil {
+				inv.crash = fmt.Sprintf("A%d", j)
+			} else {
+				inv.crash = fmt.Sprintf("T%d", j)
+			}
+		}
+	case sig != 0 || exit == 2 && strings.Contains(se.String(), "goroutine "):
+		inv.errClass = "panic"
+	case exit == 0:
+		var doc []jsonResult
+		if json.Unmarshal(bytes.TrimSpace(so.Bytes()), &doc) != nil {
+			inv.bad = true
+		}
+		for _, r := range doc {
+			inv.results = append(inv.results, resEntry{r.Task, r.Skipped})
+			for _, c := range r.Results {
+				if c.Status != 0 {
+					inv.bad = true // exit 0 with a failed command in the document
+				}
+			}
+		}
+		if anyFailed {
+			inv.bad = true // a command failed and the invocation says nothing about it
+		}
+		inv.order = nil // the document is the order
+	case strings.Contains(se.String(), "Could not load spok cache"):
+		inv.errClass = "cache"
+	case exit == 1 && anyFailed && len(bytes.TrimSpace(so.Bytes())) == 0 && strings.Contains(se.String(), "exited with status"):
+		// a failing command: spok reports it by exit status 1 and "Command … exited with status n", and prints no
+		// document; who was skipped is inferred (a later task whose hashing fails also gives exit 1 after a failing
+		// command, but then Run returned an error and not results: the message tells the two apart)
+		order := inv.order
+		if order == nil {
+			order = fallbackOrder(inv, sel)
+		}
+		for _, n := range order {
+			inv.results = append(inv.results, resEntry{n, !called[n]})
+		}
+	default:
+		inv.errClass = "other"
+	}
+	return inv
+}
+
+// fallbackOrder: the order was not observable (killed before the sort was logged): commands that ran first, then
+// the one that was killed, then the rest of the closure
+func fallbackOrder(inv invocation, sel []string) []string {
+	var order []string
+	inOrd := map[string]bool{}
+	for _, cl := range inv.calls {
+		if !inOrd[cl.task] {
+			order = append(order, cl.task)
+			inOrd[cl.task] = true
+		}
+	}
+	if inv.killed != "" && !inOrd[inv.killed] {
+		order = append(order, inv.killed)
+		inOrd[inv.killed] = true
+	}
+	for _, n := range sel {
+		if !inOrd[n] {
+			order = append(order, n)
+		}
+	}
+	return order
+}
+
 func workCase(c string) string {
 	w := strings.Fields(c)
 	if len(w) == 0 || !strings.HasPrefix(w[0], "T") {
 		return "BAD-CASE"
 	}
-	ti, err := strconv.Atoi(w[0][1:])
+	binary := strings.HasSuffix(w[0], "b")
+	ti, err := strconv.Atoi(strings.TrimSuffix(w[0][1:], "b"))
 	if err != nil || ti < 0 || ti >= len(templates) {
 		return "BAD-CASE"
 	}
@@ -324,9 +735,18 @@ func workCase(c string) string {
 	}
 	defer os.RemoveAll(root)
 	root, _ = filepath.EvalSymlinks(root)
-	_ = os.MkdirAll(filepath.Join(root, "src"), 0o755)
+	proj := root
+	var sb *sandbox
+	if binary {
+		var bad string
+		if sb, bad = newSandbox(root, tpl); sb == nil {
+			return bad
+		}
+		proj = sb.proj
+	}
+	_ = os.MkdirAll(filepath.Join(proj, "src"), 0o755)
 	for _, f := range []int{0, 1, 2} {
-		_ = os.WriteFile(filepath.Join(root, files[f]), []byte("v1"), 0o644)
+		_ = os.WriteFile(filepath.Join(proj, files[f]), []byte("v1"), 0o644)
 	}
 
 	fail := map[string]bool{}
@@ -350,7 +770,7 @@ func workCase(c string) string {
 			if f < 0 || f >= len(files) {
 				return "BAD-CASE"
 			}
-			_ = os.WriteFile(filepath.Join(root, files[f]), []byte("v"+p[2]), 0o644)
+			_ = os.WriteFile(filepath.Join(proj, files[f]), []byte("v"+p[2]), 0o644)
 		case "d":
 			if len(p) != 2 {
 				return "BAD-CASE"
@@ -359,14 +779,22 @@ func workCase(c string) string {
 			if f < 0 || f >= len(files) {
 				return "BAD-CASE"
 			}
-			_ = os.Remove(filepath.Join(root, files[f]))
+			_ = os.Remove(filepath.Join(proj, files[f]))
 		case "c":
-			_ = os.RemoveAll(filepath.Join(root, cache.Dir))
+			_ = os.RemoveAll(filepath.Join(proj, cache.Dir))
 		case "f":
 			if len(p) != 2 {
 				return "BAD-CASE"
 			}
 			fail[p[1]] = !fail[p[1]]
+			if binary {
+				flag := filepath.Join(sb.ctl, "fail."+p[1])
+				if fail[p[1]] {
+					_ = os.WriteFile(flag, nil, 0o644)
+				} else {
+					_ = os.Remove(flag)
+				}
+			}
 		case "r":
 			if len(p) != 4 {
 				return "BAD-CASE"
@@ -376,25 +804,15 @@ func workCase(c string) string {
 				req = append(req, string(ch))
 			}
 			force := p[2] == "1"
-			killAt, pointAt, tear := 0, 0, -1
-			switch {
-			case p[3] == "-":
-			case strings.HasPrefix(p[3], "K"):
-				killAt, _ = strconv.Atoi(p[3][1:])
-			case strings.HasPrefix(p[3], "P"):
-				q := strings.Split(p[3][1:], "t")
-				pointAt, _ = strconv.Atoi(q[0])
-				if len(q) > 1 {
-					tear, _ = strconv.Atoi(q[1])
-				}
-			default:
+			cs, ok := parseCrashSpec(p[3])
+			if !ok {
 				return "BAD-CASE"
 			}
 
 			// inputs of every task now, and their real digests
 			var inp []string
 			for _, n := range names {
-				in := refInputs(root, *tpl.def(n))
+				in := refInputs(proj, *tpl.def(n), binary)
 				inp = append(inp, n+"="+in.String())
 				if in.readable {
 					if d, err := hash.New().Hash(in.paths); err == nil {
@@ -406,75 +824,21 @@ func workCase(c string) string {
 			sel := tpl.closure(req)
 			sSEL = append(sSEL, joinOr(sel, ","))
 
-			tree, err := parser.New(text).Parse()
-			if err != nil {
-				return "BAD-TEMPLATE " + sup.Hx(err.Error())
+			var inv invocation
+			if binary {
+				inv = invokeBinary(sb, sel, req, force, cs, fail)
+			} else {
+				inv = invokeInProc(text, proj, sel, req, force, cs, fail)
 			}
-			lg := &rlog{}
-			sf, err := file.New(tree, root, lg)
-			if err != nil {
-				return "BAD-TEMPLATE " + sup.Hx(err.Error())
+			if inv.fatal != "" {
+				return inv.fatal
 			}
-			rn := &runner{fail: fail, killAt: killAt}
-			npoints := 0
-			cache.VerifPoint = func(point, path string, contents []byte) {
-				npoints++
-				if npoints != pointAt {
-					return
-				}
-				j := (npoints + 1) / 2
-				if point == "dump:before" {
-					if tear >= 0 {
-						n := tear
-						if n > len(contents) {
-							n = len(contents)
-						}
-						_ = os.WriteFile(path, contents[:n], 0o666)
-						if n < len(contents) {
-							panic(killed{fmt.Sprintf("T%d", j)})
-						}
-						panic(killed{fmt.Sprintf("A%d", j)})
-					}
-					panic(killed{fmt.Sprintf("B%d", j)})
-				}
-				panic(killed{fmt.Sprintf("A%d", j)})
-			}
-			var results []struct {
-				task    string
-				skipped bool
-			}
-			var runErr error
-			crash := "-"
-			errClass := ""
-			func() {
-				defer func() {
-					cache.VerifPoint = nil
-					if r := recover(); r != nil {
-						if k, ok := r.(killed); ok {
-							crash = k.what
-							errClass = "crash"
-						} else {
-							errClass = "panic"
-						}
-					}
-				}()
-				rs, err := sf.Run(iostream.Null(), rn, force, req...)
-				runErr = err
-				if err == nil {
-					for _, x := range rs {
-						results = append(results, struct {
-							task    string
-							skipped bool
-						}{x.Task, x.Skipped})
-					}
-				}
-			}()
-			sCR = append(sCR, crash)
+			sCR = append(sCR, inv.crash)
 
 			called := map[string]bool{}
 			okOf := map[string]bool{}
 			var ex []string
-			for _, cl := range rn.calls {
+			for _, cl := range inv.calls {
 				called[cl.task] = true
 				okOf[cl.task] = cl.ok
 				if cl.ok {
@@ -486,24 +850,17 @@ func workCase(c string) string {
 			sEXEC = append(sEXEC, joinOr(ex, ","))
 
 			var order []string
-			switch {
-			case errClass != "":
+			errClass := inv.errClass
+			if errClass != "" {
 				sRES = append(sRES, "-")
-			case runErr != nil:
-				sRES = append(sRES, "-")
-				if strings.Contains(runErr.Error(), "Could not load spok cache file") {
-					errClass = "cache"
-				} else {
-					errClass = "other"
-				}
-			default:
+			} else {
 				errClass = "none"
 				var rs []string
 				seen := map[string]bool{}
-				for _, x := range results {
+				for _, x := range inv.results {
 					order = append(order, x.task)
 					if seen[x.task] || x.skipped == called[x.task] {
-						errClass = "bad" // the report contradicts what the Runner saw
+						errClass = "bad" // the report contradicts what the Runner / the side-effect log saw
 					}
 					seen[x.task] = true
 					switch {
@@ -517,38 +874,25 @@ func workCase(c string) string {
 				}
 				for t := range called {
 					if !seen[t] {
-						errClass = "bad" // a Runner call for a task that is not in the report
+						errClass = "bad" // a command ran for a task that is not in the report
 					}
+				}
+				if inv.bad {
+					errClass = "bad"
 				}
 				sRES = append(sRES, joinOr(rs, ","))
 			}
 			sERR = append(sERR, errClass)
 			if order == nil {
-				order = lg.order(sel)
+				order = inv.order
 			}
 			if order == nil {
-				// not observable (killed before the sort was logged): Runner calls first, then the rest of the closure
-				inOrd := map[string]bool{}
-				for _, cl := range rn.calls {
-					if !inOrd[cl.task] {
-						order = append(order, cl.task)
-						inOrd[cl.task] = true
-					}
-				}
-				if rn.killed != "" && !inOrd[rn.killed] {
-					order = append(order, rn.killed)
-					inOrd[rn.killed] = true
-				}
-				for _, n := range sel {
-					if !inOrd[n] {
-						order = append(order, n)
-					}
-				}
+				order = fallbackOrder(inv, sel)
 			}
 			sORD = append(sORD, joinOr(order, ","))
 
 			// the cache file afterwards
-			data, err := os.ReadFile(filepath.Join(root, cache.Path))
+			data, err := os.ReadFile(filepath.Join(proj, cache.Path))
 			switch {
 			case err != nil:
 				sCACHE = append(sCACHE, "missing")
@@ -695,7 +1039,61 @@ func crashFamily(w *bufio.Writer, t int, preDepth int, maxPoint int, tears []int
 	return n
 }
 
+// ---- binary mode (T<k>b): the same histories against the real binary
+
+// binaryKillFamily: for the two-task templates 1 and 2
+//
+//	[run AB] edit [run killed at K1 K2 / every crash point k (± torn 0, 9, half, full)] revert [run AB]     ± --force on the killed run
+//	[run AB] remove the cache [the killed run, now through cache.Init: points 1..10] [run AB]
+//	[the killed run in a fresh project] [run AB]
+//
+// every `stride`-th of them, starting at `offset`
+func binaryKillFamily(w *bufio.Writer, stride, offset int) int {
+	tears := []int{0, 9, 70, 100000} // the cache file of two tasks is 15 / 79 / 143 bytes long
+	specs := func(maxPoint int) []string {
+		out := []string{"K1", "K2"}
+		for k := 1; k <= maxPoint; k++ {
+			out = append(out, fmt.Sprintf("P%d", k))
+			if k%2 == 1 {
+				for _, n := range tears {
+					out = append(out, fmt.Sprintf("P%dt%d", k, n))
+				}
+			}
+		}
+		return out
+	}
+	n, idx := 0, offset
+	emit := func(t int, ev ...string) {
+		idx++
+		if idx%stride != 0 {
+			return
+		}
+		fmt.Fprintf(w, "T%db %s\n", t, strings.Join(ev, " "))
+		n++
+	}
+	for _, t := range []int{1, 2} {
+		for _, f := range []string{"0", "1"} {
+			for _, set := range []string{"AB", "A"} {
+				for _, ed := range [][2]string{{"w.0.2", "w.0.1"}, {"w.1.2", "w.1.1"}} {
+					for _, cs := range specs(8) {
+						emit(t, "r.AB.0.-", ed[0], "r."+set+"."+f+"."+cs, ed[1], "r.AB.0.-")
+					}
+				}
+			}
+			for _, cs := range specs(10) {
+				emit(t, "r.AB.0.-", "c", "r.AB."+f+"."+cs, "r.AB.0.-")
+				emit(t, "r.AB."+f+"."+cs, "r.AB.0.-")
+			}
+		}
+	}
+	return n
+}
+
 func randomHistories(w *bufio.Writer, rng *rand.Rand, count int, maxDepth int, pCrash, pForce float64) {
+	randomHistoriesMode(w, rng, count, maxDepth, pCrash, pForce, "")
+}
+
+func randomHistoriesMode(w *bufio.Writer, rng *rand.Rand, count int, maxDepth int, pCrash, pForce float64, mode string) {
 	for i := 0; i < count; i++ {
 		t := rng.Intn(len(templates))
 		tpl := templates[t]
@@ -721,7 +1119,7 @@ func randomHistories(w *bufio.Writer, rng *rand.Rand, count int, maxDepth int, p
 			}
 		}
 		ev = append(ev, randomRun(rng, tpl, 0, 0))
-		fmt.Fprintf(w, "T%d %s\n", t, strings.Join(ev, " "))
+		fmt.Fprintf(w, "T%d%s %s\n", t, mode, strings.Join(ev, " "))
 	}
 }
 
@@ -763,6 +1161,29 @@ func gen(w *bufio.Writer, args map[string]string) {
 	seed := int64(sup.Atoi(args["seed"], 1))
 	rng := rand.New(rand.NewSource(seed*7919 + int64(len(prop))*104729 + int64(prop[len(prop)-1])))
 	sup.CorpusLines(w, "run")
+
+	// binary mode first (processes are slower than calls: let them overlap with the rest): C10, and a small sample for C01
+	brng := rand.New(rand.NewSource(seed*104729 + 17))
+	off := int(seed % 1000)
+	switch {
+	case prop == "C10" && thorough:
+		binaryKillFamily(w, 1, 0)
+		randomHistoriesMode(w, brng, 100, 7, 0.5, 0.2, "b")
+	case prop == "C10":
+		for _, t := range []int{1, 2} { // always: a kill from inside each task position, a torn and a completed write
+			for _, cs := range []string{"K1", "K2", "P1t9", "P3t70", "P2", "P4"} {
+				fmt.Fprintf(w, "T%db r.AB.0.- w.0.2 r.AB.1.%s w.0.1 r.AB.0.-\n", t, cs)
+			}
+		}
+		binaryKillFamily(w, 17, off)
+		randomHistoriesMode(w, brng, 12, 7, 0.5, 0.2, "b")
+	case prop == "C01" && thorough:
+		binaryKillFamily(w, 12, off)
+		randomHistoriesMode(w, brng, 30, 7, 0.3, 0.2, "b")
+	case prop == "C01":
+		binaryKillFamily(w, 80, off)
+		randomHistoriesMode(w, brng, 4, 7, 0.3, 0.2, "b")
+	}
 
 	quickTears := []int{0, 9, 100000}
 	var allTears []int
